@@ -4,6 +4,7 @@ mod c20;
 mod c07;
 mod c13;
 mod c14;
+mod c16;
 mod c18;
 mod c02;
 mod c19;
@@ -97,6 +98,7 @@ fn main() {
     "C07" => (c07::generate, c07::exec),
     "C13" => (c13::generate, c13::exec),
     "C14" => (c14::generate, c14::exec),
+    "C16" => (c16::generate, c16::exec),
     "C18" => (c18::generate, c18::exec),
     "C02" => (c02::generate, c02::exec),
     "C19" => (c19::generate, c19::exec),
